@@ -119,7 +119,7 @@ func (gf *GroupFile) Write(w io.Writer) error {
 
 // Parse parses an /etc/group line into a GroupEntry.
 func (ge *GroupEntry) Parse(line string) error {
-	line = strings.TrimSpace(line)
+	line = strings.TrimRight(line, "\r\n")
 
 	parts := strings.Split(line, ":")
 	if len(parts) != 4 {
